@@ -328,7 +328,121 @@ def random_kill_case(item):
     return res
 
 
+GEN_PROF = None
+
+
+def _gen_prof():
+    global GEN_PROF
+    if GEN_PROF is None:
+        from .. import gen
+        GEN_PROF = gen.profile(ntgt=(3, 9), p_flag=0.0, p_opt=0.0, p_phony=0.0, p_stamp=0.4, p_always=0.15, p_scribble=0.0, p_watch=0.25, p_dyn=0.3,
+                               ops=dict(build=0, edit_r=5, edit_i=2, touch=1, rm=2, doedit=1, doadd=1, dorm=0, sel=2, flag=0, watch=2, force=0, repeat=0,
+                                        uwrite=0, urm=0, dorm_last=0, m_watchduring=0))
+    return GEN_PROF
+
+
+def gen_crash_case(item):
+    """Generated programs (default rules, checksummed and always targets, dynamic dependency lists, ifcreate watchers, outputs that are
+    symbolic links, dependencies reached through a symlinked directory): full build, one to three edits, then a rebuild that is
+    killed before a random state-changing call; recovery by a plain redo-ifchange, judged by the content oracle of the program; one
+    more source edit and rebuild."""
+    _, seed, mode, j = item
+    from .. import gen
+    from ..histrun import HistRunner
+    rnd = random.Random(seed)
+    prof = _gen_prof()
+    p = gen.gen_program(rnd, prof)
+    hr = HistRunner(p, tag='c10g')
+    anoms = []
+    obs = dict(crash_runs=1, crashed=0, generated_programs=1)
+    sets = {}
+    where = 'generated'
+    try:
+        used = set(d for t in p.targets.values() for d in t['deps'])
+        tops = [n for n in p.order if n not in used][-3:] or p.order[-1:]
+        r = hr.redo(['redo-ifchange'] + tops)
+        if r.status != 'exit' or r.rc != 0:
+            return dict(verdict='inconclusive', why='generated program: first build failed (%s)' % r.rc, sample=dict(item=list(item)))
+        applied = 0
+        for _ in range(12):
+            op = gen.gen_op(rnd, p, prof)
+            if op is None or isinstance(op, list) or op[0] == 'build':
+                continue
+            if hr.apply_edit(op) is not False:
+                applied += 1
+            if applied >= rnd.randint(1, 3):
+                break
+        log = os.path.join(os.path.dirname(hr.top), os.path.basename(hr.top) + '.shimlog')
+        ctr = log + '.ctr'
+        pt = int(2 ** rnd.uniform(0, 8.2))
+        rc_ = hr.redo(['redo-ifchange'] + tops, j=j, timeout=40,
+                      extra_env=dict(LD_PRELOAD=ensure_shim(), CRASH_CTR=ctr, CRASH_LOG=log, CRASH_AT=str(pt), CRASH_MODE=mode, CRASH_ROOT=hr.top))
+        lines = (common.read_file(log) or b'').decode().split('\n')[:-1]
+        for f in (log, ctr):
+            if os.path.exists(f):
+                os.unlink(f)
+        hit = [l for l in lines if l.split(' ')[0] == str(pt)]
+        if not hit:
+            return dict(verdict='held', nontrivial=False, shape='nocrash', sample=dict(kind='generated', seed=seed, point=pt, crashed=False), obs=obs)
+        obs['crashed'] = 1
+        f = hit[0].split(' ')
+        point = (f[2], f[3], path_class(f[4], hr.top))
+        sets['crash_point_classes'] = ['%s:%s:%s' % point]
+        sets['generated_target_kinds'] = sorted(set(k for t in p.targets.values() for k in ('stamp', 'always', 'dyn', 'watch', 'linkout', 'alias', 'head', 'split') if t.get(k)))
+        where = 'generated:%s:%s:%s' % point
+
+        def judge(tag):
+            rr = hr.redo(['redo-ifchange'] + tops, timeout=60)
+            text = rr.err + rr.out
+            if rr.status == 'timeout':
+                return 'inconclusive'
+            if rr.status == 'stuck':
+                anoms.append(dict(key='%s-stuck:%s' % (tag, where), what='%s run stuck: %s' % (tag, rr.witness)))
+                return 'bad'
+            ptx = common.panic_text(text)
+            if ptx or rr.rc == 101:
+                anoms.append(dict(key='%s-panic:%s' % (tag, where), what=ptx or 'exit 101'))
+                return 'bad'
+            if 'you modified it' in text:
+                anoms.append(dict(key='%s-override-warning:%s' % (tag, where), what='a file the user never touched is treated as hand-edited: %s' % text[-200:].replace('\n', ' | ')))
+            if rr.rc != 0:
+                anoms.append(dict(key='%s-fails:%s:%s' % (tag, scen.classify_error(text) or 'rc=%s' % rr.rc, where), what='exit %s: %s' % (rr.rc, text[-300:].replace('\n', ' | '))))
+                return 'bad'
+            clo = set()
+            for t in tops:
+                p.closure(t, clo)
+            memo = {}
+            bad = [n for n in sorted(clo) if p.expected(n, memo) != common.read_file(hr.path(n))]
+            if bad:
+                anoms.append(dict(key='%s-stale:%s' % (tag, where), what='%s wrong after exit 0 (seed %s, killed before %s %s)' % (bad, seed, point[1], point[2])))
+                return 'bad'
+            return 'ok'
+
+        v = judge('recovery')
+        if v == 'inconclusive':
+            return dict(verdict='inconclusive', why='recovery watchdog without stuck witness', sample=dict(item=list(item)))
+        srcs = sorted(p.sources)
+        hr.apply_edit(('edit_r', rnd.choice(srcs)))
+        hr.apply_edit(('edit_r', rnd.choice(srcs)))
+        v2 = judge('after-edit')
+        if v2 == 'inconclusive':
+            return dict(verdict='inconclusive', why='edit-run watchdog without stuck witness', sample=dict(item=list(item)))
+        left = [n for n in os.listdir(hr.top) if n.endswith('.redo.tmp')]
+        if left and not anoms:
+            anoms.append(dict(key='tmp-left-after-recovery:%s' % where, what=str(left)))
+    finally:
+        hr.close()
+    res = dict(verdict='violated' if anoms else 'held', nontrivial=True, shape=common.shash(['gen', seed, mode, j]),
+               sample=dict(kind='generated', seed=seed, mode=mode, j=j), obs=obs, sets=sets)
+    if anoms:
+        res['violations'] = anoms
+        res['replay'] = dict(kind='generated', item=list(item))
+    return res
+
+
 def dispatch(item):
+    if item[0] == 'generated':
+        return gen_crash_case(tuple(item))
     if item[0] == 'random':
         return random_kill_case(item[1:])
     return crash_case(item)
@@ -341,7 +455,7 @@ RULE = ('for each of 12 small programs (first builds and rebuilds of a chain, wi
         'immediately before call number p; every p (quick: every third, fewer programs) x both modes, each from a fresh replayed pre-history. '
         'Recovery protocol: redo-ifchange (no clean-up) must finish, not be stuck, not panic, exit 0, leave every target equal to the oracle, '
         'not call an untouched file hand-edited; then every source is edited and the same is required again; integrity_check; no *.redo.tmp. '
-        'Double kills: the recovery run itself is killed before a random call of its own (40 quick / 1500 thorough combinations), then a second recovery is judged the same way. Plus random-time whole-tree kills. Non-trivial: the kill really happened. Distinct: (program, mode, point number).')
+        'Double kills: the recovery run itself is killed before a random call of its own (40 quick / 1500 thorough combinations), then a second recovery is judged the same way. Plus random-time whole-tree kills. Generated programs (120 quick / 4 000 thorough; the program generator of the history checks: default rules, checksummed and always targets, dynamic dependency lists, ifcreate watchers, outputs that are symbolic links, dependencies through a symlinked directory; no failing scripts): full build, 1-3 edits (sources, rules, dependency lists, watched paths, removed targets), a rebuild at -j1/-j3 killed before a random call, recovery and a further edit judged by the content oracle of the program. Non-trivial: the kill really happened. Distinct: (program, mode, point number).')
 ASSUME = ['crash points are libc-call aligned (cross-checked by random-time kills)', 'only the recovery runs are judged, never the crashed run',
           'remnants of a crashed run (mode self) are waited for, and killed if they do not end, before recovery starts']
 
@@ -369,6 +483,8 @@ def main(tier):
     for i in range(40 if quick else 1500):
         n = rnd.choice(names)
         items.append((n, rnd.randint(1, max(2, counts[n])), rnd.choice(['self', 'group']), rnd.randint(1, 70), rnd.choice(['self', 'group'])))
+    for i in range(120 if quick else 4000):
+        items.append(('generated', common.seed() * 1000003 + (0 if quick else 500000) + i, rnd.choice(['self', 'group']), rnd.choice([1, 1, 3])))
     rnd.shuffle(items)
     if not quick:
         items += [('random', rnd.choice(list(PROGRAMS)), rnd.randint(1, 400), i) for i in range(300)]
@@ -385,7 +501,7 @@ def replay(path):
     d = json.load(open(path))
     common.ensure_built()
     it = d['replay']['item']
-    r = dispatch(tuple(it)) if d['replay']['kind'] == 'crash' else random_kill_case(tuple(it))
+    r = dispatch(tuple(it)) if d['replay']['kind'] in ('crash', 'generated') else random_kill_case(tuple(it))
     print(r.get('verdict'), r.get('violations'))
     common.cleanup_scratch()
     if r.get('verdict') == 'violated':
